@@ -40,7 +40,7 @@ RULE_RE = re.compile(r'^#"([^"\\]*)": "([^"\\]*)"$')
 
 WORDS = ['policy', 'the', 'a', 'is', 'allowed', '#', '##', '"quoted"', "'single'", 'key: value', 'colon:', ':', '- item', '-', '?', '|', '>',
          '"x": "@"', '#"x": "@"', '%(user_id)s', '100%', '%s', '{}', '{a: b}', '[1, 2]', '&anchor', '*alias', '!tag', '@', '`', 'é', 'Ж', '中文', '🙂',
-         'x' * 75, 'y' * 140, 'http://example.org/' + 'p/' * 40, 'tab\there', 'trailing   ', '\\', '\\n', '---', '...', '~', 'null', 'true']
+         'cr\rhere', 'vt\x0bhere', 'ff\x0chere', '"evil": "@"\r"evil2": "@"', 'x' * 75, 'y' * 140, 'http://example.org/' + 'p/' * 40, 'tab\there', 'trailing   ', '\\', '\\n', '---', '...', '~', 'null', 'true']
 
 
 def hostile_text(rng):
@@ -60,7 +60,7 @@ def hostile_text(rng):
     text = sep.join(lines)
     if rng.random() < 0.2:
         text = rng.choice(['\n', ' ', '\n\n']) + text + rng.choice(['\n', '  ', ''])
-    return ''.join(ch for ch in text if ch.isprintable() or ch in '\n\t\r')
+    return ''.join(ch for ch in text if ch.isprintable() or ch in '\n\t\r\x0b\x0c')
 
 
 NAME_CH = 'abcdefgXYZ019_:-.*/'
